@@ -50,6 +50,12 @@ CHECKS = {
         text="TLC proves LineageSound (cut within the parent, names the last message at or before it, parent untouched) on every reachable state and generates the predicted outcome of every selector class in every state; the real store must answer the same, add bytes only for the new thread (created@0, lineage@1) and a handoff's summary must be readable afterwards.",
         note="Exhaustive within MaxFrames/MaxOps; artifact readability = blob file exists under .rip/artifacts/blobs.",
         ref="4 C10"),
+    "C12": dict(
+        engine="Patch",
+        technique="TLA+ spec Patch (abstract file system, add/delete/update+move, forward-cursor hunks, undo) checked with TLC; every (initial file system, document) pair TLC enumerates is materialised and applied by the real Workspace::apply_patch and the apply_patch tool; full tree + bytes compared with the prediction",
+        text="TLC checks AllOrNothing and StylePreserved on every (file system, document) pair of the alphabet (32 initial file systems x all 1-operation and 2-operation documents incl. hunks with missing / repeated / grown / shrunk / before-the-cursor context, moves onto existing files and onto themselves, nine malformed-document classes) and prints Apply for each; the real library call and the tool must succeed or fail as predicted, leave exactly the predicted bytes (or the untouched tree) and report exactly the named files.",
+        note="Three paths (one nested), three-line alphabet, files <= 3 lines; directories left behind by a rolled-back add are allowed; mixed line endings inside one file are outside the alphabet.",
+        ref="4 C12"),
     "C15": dict(
         engine="Sse",
         technique="TLA+ specs SseLines (SseDecoder::push/finish transcribed) and Utf8 (push_bytes carry transcribed) model-checked with TLC over all streams x all partitions; every stream replayed on the real decoder under token-boundary, single-byte and byte-at-a-time partitions and through real runs with controlled TCP chunking",
